@@ -1019,11 +1019,11 @@ theorem fin_direct_none (M : Nat) (w : World) (mid oid c : Nat) (f : World → T
     tok_add _ { market := mid, client := c } _ oid ((TOk.fresh w mid c).keeps hk.1) (Keeps.mem hk.1 oid ho) hs
   exact (hk.trans (fs_txnExit M _ _ ht1)).2 hBI
 
-theorem fin_doAction (M : Nat) (w : World) (mid : Nat) (batch : Option Txn) (a : Action) (h : SOk M w batch) :
-    SOk M (w.doAction mid batch a).1 (w.doAction mid batch a).2.1 ∧ Step M w (w.doAction mid batch a).1 := by
+theorem fin_doActionCore (M : Nat) (w : World) (mid : Nat) (batch : Option Txn) (a : Action) (h : SOk M w batch) :
+    SOk M (w.doActionCore mid batch a).1 (w.doActionCore mid batch a).2.1 ∧ Step M w (w.doActionCore mid batch a).1 := by
   obtain ⟨hBI, hB⟩ := h
-  have hB' := (step_doAction w mid batch a hBI.inv hB).2
-  unfold doAction at hB' ⊢
+  have hB' := (step_doActionCore w mid batch a hBI.inv hB).2
+  unfold doActionCore at hB' ⊢
   simp only at hB' ⊢
   split at hB'
   · rename_i hmiss; rw [if_pos hmiss]; exact ⟨⟨hBI, hB⟩, Step.refl M w⟩
@@ -1036,7 +1036,7 @@ theorem fin_doAction (M : Nat) (w : World) (mid : Nat) (batch : Option Txn) (a :
       simpa using hmiss
     cases a with
     | create o tr =>
-      have hk : ∀ (w' : World), w'.orders = w.orders ++ [{ o with id := w.orders.length, created := w.clock, statusAt := w.clock }] →
+      have hk : ∀ (w' : World), w'.orders = w.orders ++ [{ o with id := w.orders.length, created := w.clock, statusAt := w.clock, status := none, complete := false }] →
           w'.markets = w.markets → w'.queue = w.queue → BOk w' batch → SOk M w' batch ∧ Step M w w' := by
         intro w' h1 h2 h3 hb
         obtain ⟨b1, s1⟩ := (fs_appendOrder M w w' _ rfl h1 h2 (sub_of_eq h3)).2 hBI
@@ -1117,6 +1117,16 @@ theorem fin_doAction (M : Nat) (w : World) (mid : Nat) (batch : Option Txn) (a :
         obtain ⟨b1, s1⟩ := (fs_txnExit M w t (hB t rfl)).2 hBI
         exact ⟨⟨b1, hB'⟩, s1⟩
       | none => exact ⟨⟨hBI, hB'⟩, Step.refl M w⟩
+
+theorem fs_noteForeign (M : Nat) (w : World) (mid : Nat) (a : Action) : FS M w (w.noteForeign mid a) :=
+  FS.of_eq (noteForeign_orders w mid a) (noteForeign_markets w mid a) (sub_of_eq (noteForeign_queue w mid a))
+
+theorem fin_doAction (M : Nat) (w : World) (mid : Nat) (batch : Option Txn) (a : Action) (h : SOk M w batch) :
+    SOk M (w.doAction mid batch a).1 (w.doAction mid batch a).2.1 ∧ Step M w (w.doAction mid batch a).1 := by
+  unfold doAction
+  obtain ⟨b1, s1⟩ := (fs_noteForeign M w mid a).2 h.1
+  obtain ⟨g1, g2⟩ := fin_doActionCore M _ mid batch a ⟨b1, fun t ht => (h.2 t ht).keeps (fs_noteForeign M w mid a).1⟩
+  exact ⟨g1, s1.trans g2⟩
 
 theorem fs_doActions (M : Nat) (w : World) (mid : Nat) (as : List Action) : FS M w (w.doActions mid as).1 := by
   refine ⟨keeps_doActions w mid as, fun hBI => ?_⟩
